@@ -1,136 +1,87 @@
-(* C08 — proofs about Model/HandshakeGate.v.  All statements are for every event list
-   (any number of connections, any interleaving), both server types, every quirk setting
-   unless said otherwise; the structural facts of the source enter through [cfg_ok]. *)
+(* C08 — proofs about Model/HandshakeGate.v, part 2: steps, histories, the invariant and the main theorems.
+   All statements are for every event list (any number of connections, any interleaving, messages /
+   peer-gone / silence events, denied connections), both server types, every quirk setting unless said
+   otherwise; the structural facts of the source enter through [cfg_ok]. *)
 From Coq Require Import List NArith Arith Bool Lia.
 Import ListNotations.
-From V Require Import Model.HandshakeGate.
+From V Require Import Model.HandshakeGate Proofs.HandshakeGateHs.
 
-(* ------------------------------------------------------------------ small facts *)
-Lemma list_eqbN_eq : forall a b, list_eqbN a b = true -> a = b.
+(* ------------------------------------------------------------------ the first event *)
+Definition dead (s : cstate) : bool := match s with Closed | Abandoned => true | _ => false end.
+
+Lemma reply_outs_no_exec : forall c r c' t tok, ~ In (Exec c' t tok) (reply_outs c r).
 Proof.
-  induction a as [|x a IH]; destruct b as [|y b]; cbn; intros H; try discriminate; auto.
-  apply andb_true_iff in H. destruct H as [H1 H2]. apply N.eqb_eq in H1. subst. f_equal. auto.
+  intros c r c' t tok. unfold reply_outs. destruct r as [[[k s] i]|]; cbn; intros H; auto.
+  destruct H as [H|H]; auto; discriminate.
 Qed.
 
-Record cfg_facts (g : cfg) : Prop := {
-  cf_first : c_first_types g = [c_connect g];
-  cf_later : c_later_types g = [c_invoke g; c_ping g];
-  cf_neq : c_invoke g <> c_ping g;
-  cf_gate : forall sty, c_gate g sty = true;
-  cf_ok : c_ok_only g = true }.
-
-Lemma cfg_ok_facts : forall g, cfg_ok g = true -> cfg_facts g.
+(* the three outcomes of a first event, characterised on the input *)
+Lemma step_first_cases : forall g sty e, cfg_facts g ->
+  (is_accepted_connect g sty e = true /\ validator_aborts g sty e = false /\
+   exists m, e_in e = InMsg m /\
+     step_first g sty e = (Accepted, [Reply (e_conn e) RConnectOk (m_seq m) (m_ser m)], false)) \/
+  (is_accepted_connect g sty e = false /\ validator_aborts g sty e = true /\
+   exists s o, step_first g sty e = (s, o, match sty with Multiplex => true | Thread => false end) /\
+     dead s = true /\ (o = [] \/ o = [SockClosed (e_conn e)]) /\ (sty = Thread -> o = [])) \/
+  (is_accepted_connect g sty e = false /\ validator_aborts g sty e = false /\
+   exists rs, step_first g sty e = (Closed, rs ++ [SockClosed (e_conn e)], false) /\
+     (rs = [] \/ exists k s i, rs = [Reply (e_conn e) (RConnectFail k) s i])).
 Proof.
-  intros g H. unfold cfg_ok in H.
-  apply andb_true_iff in H. destruct H as [H Hok].
-  apply andb_true_iff in H. destruct H as [H Hmux].
-  apply andb_true_iff in H. destruct H as [H Hthr].
-  apply andb_true_iff in H. destruct H as [H Hneq].
-  apply andb_true_iff in H. destruct H as [Hfirst Hlater].
-  constructor.
-  - apply list_eqbN_eq; assumption.
-  - apply list_eqbN_eq; assumption.
-  - apply negb_true_iff in Hneq. apply N.eqb_neq in Hneq. assumption.
-  - intros []; assumption.
-  - assumption.
+  intros g sty e F. unfold step_first, is_accepted_connect, validator_aborts.
+  rewrite (gated_true g sty F).
+  destruct (denied_applies sty e); cbn.
+  - (* denied by the thread-pool server *)
+    right; right. split; [reflexivity|]. split; [reflexivity|].
+    destruct (e_in e) as [m| |].
+    + destruct (hs_denied_shape g m) as (k & s & i & H). rewrite H. cbn.
+      exists [Reply (e_conn e) (RConnectFail k) s i]. split; [reflexivity|]. right. eauto.
+    + exists []. split; [reflexivity|]. left; reflexivity.
+    + exists [Reply (e_conn e) (RConnectFail RsnOther) 0%N (c_marshal g)]. split; [reflexivity|]. right. eauto.
+  - destruct (e_in e) as [m| |].
+    + destruct (hs_result_cases g m F) as [[A H]|[[A [B [kb H]]]|[A [B (r & H & S)]]]]; rewrite H, A.
+      * left. split; [reflexivity|]. split.
+        -- destruct (q_abort_unanswered g); cbn; [|reflexivity].
+           unfold is_accepted_msg in A. destruct (m_val m) as [[]|[]|kb]; try rewrite andb_false_r; try reflexivity.
+           rewrite andb_false_r in A. discriminate.
+        -- exists m. split; reflexivity.
+      * right; left. split; [reflexivity|]. split.
+        -- unfold abort_msg in B. rewrite <- andb_assoc in B. exact B.
+        -- destruct sty; [|destruct kb]; eexists; eexists; (split; [reflexivity|]); (split; [reflexivity|]);
+             (split; [auto|]); intros T; try reflexivity; discriminate T.
+      * right; right. split; [reflexivity|]. split.
+        -- unfold abort_msg in B. rewrite <- andb_assoc in B. exact B.
+        -- exists (reply_outs (e_conn e) r). split; [reflexivity|].
+           destruct S as [->|(k & s & i & ->)]; cbn; eauto.
+    + right; right. rewrite andb_false_r. split; [reflexivity|]. split; [reflexivity|].
+      exists []. split; [reflexivity|]. left; reflexivity.
+    + right; right. rewrite andb_false_r. split; [reflexivity|]. split; [reflexivity|].
+      exists [Reply (e_conn e) (RConnectFail RsnOther) 0%N (c_marshal g)]. split; [reflexivity|]. right. eauto.
 Qed.
 
-Lemma gated_true : forall g sty, cfg_facts g -> gated g sty = true.
-Proof. intros g sty F. unfold gated. rewrite (cf_gate g F), (cf_ok g F). reflexivity. Qed.
-
-Lemma memN_single : forall x y, memN x [y] = (x =? y)%N.
-Proof. intros. unfold memN. cbn. apply orb_false_r. Qed.
-
-(* ------------------------------------------------------------------ _handshake *)
-(* accepted  <->  the input is a well-formed CONNECT for a registered object that the validator accepts *)
-Lemma hs_result_accept : forall g m, cfg_facts g ->
-  snd (hs_result g m) = is_accepted_connect g m.
+Lemma step_first_no_exec : forall g sty e, cfg_facts g -> forall c' t tok,
+  ~ In (Exec c' t tok) (snd (fst (step_first g sty e))).
 Proof.
-  intros g m F. unfold hs_result, is_accepted_connect.
-  rewrite (cf_first g F), memN_single.
-  destruct (m_wf m), (m_type m =? c_connect g)%N, (m_ser_known m), (m_hs m) as [| | |[]],
-    (m_val m) as [[]|[]], (q_silent_unknown_ser g), (q_silent_validator_cce g); reflexivity.
+  intros g sty e F c' t tok H.
+  destruct (step_first_cases g sty e F) as [(_ & _ & m & _ & S)|[(_ & _ & s0 & o & S & _ & Ro & _)|(_ & _ & rs & S & R)]];
+    rewrite S in H; cbn in H.
+  - destruct H as [H|H]; [discriminate|contradiction].
+  - destruct Ro as [->| ->]; cbn in H; [contradiction|]. destruct H as [H|[]]. discriminate.
+  - apply in_app_or in H. destruct H as [H|[H|[]]]; try discriminate.
+    destruct R as [->|(k & s & i & ->)]; cbn in H; [contradiction|].
+    destruct H as [H|[]]. discriminate.
 Qed.
 
-(* an accepted handshake answers CONNECTOK with the request's sequence number and serializer *)
-Lemma hs_result_acc_reply : forall g m, snd (hs_result g m) = true ->
-  fst (hs_result g m) = Some (RConnectOk, m_seq m, m_ser m).
-Proof.
-  intros g m. unfold hs_result.
-  destruct (m_wf m), (negb (memN (m_type m) (c_first_types g))), (m_ser_known m), (m_hs m) as [| | |[]],
-    (m_val m) as [[]|[]], (q_silent_unknown_ser g), (q_silent_validator_cce g); cbn;
-    intros H; try discriminate H; reflexivity.
-Qed.
-
-(* a refused handshake answers nothing or exactly one CONNECTFAIL *)
-Lemma hs_result_fail_shape : forall g m, snd (hs_result g m) = false ->
-  fst (hs_result g m) = None \/ exists r s i, fst (hs_result g m) = Some (RConnectFail r, s, i).
-Proof.
-  intros g m. unfold hs_result.
-  destruct (m_wf m), (negb (memN (m_type m) (c_first_types g))), (m_ser_known m), (m_hs m) as [| | |[]],
-    (m_val m) as [[]|[]], (q_silent_unknown_ser g), (q_silent_validator_cce g); cbn;
-    intros H; try discriminate H; eauto.
-Qed.
-
-(* with both quirks off a refused handshake is always answered *)
-Lemma hs_result_fail_answered : forall g m,
-  q_silent_unknown_ser g = false -> q_silent_validator_cce g = false ->
-  snd (hs_result g m) = false ->
-  exists r s i, fst (hs_result g m) = Some (RConnectFail r, s, i).
-Proof.
-  intros g m Q1 Q2. unfold hs_result. rewrite Q1, Q2.
-  destruct (m_wf m), (negb (memN (m_type m) (c_first_types g))), (m_ser_known m), (m_hs m) as [| | |[]],
-    (m_val m) as [[]|[]]; cbn; intros H; try discriminate H; eauto.
-Qed.
-
-(* ------------------------------------------------------------------ one step *)
-Lemma step_first_no_exec : forall g sty c m c' tok, ~ In (Exec c' tok) (snd (step_first g sty c m)).
-Proof.
-  intros g sty c m c' tok. unfold step_first.
-  destruct (hs_result g m) as [r acc].
-  assert (R : ~ In (Exec c' tok) (reply_outs c r)).
-  { unfold reply_outs. destruct r as [[[k s] i]|]; cbn; intros H; auto. destruct H as [H|H]; auto; discriminate. }
-  destruct acc; cbn; auto. destruct (gated g sty); cbn; auto.
-  intros H. apply in_app_or in H. destruct H as [H|[H|H]]; auto; discriminate.
-Qed.
-
-Lemma step_first_state : forall g sty c m, cfg_facts g ->
-  fst (step_first g sty c m) = if is_accepted_connect g m then Accepted else Closed.
-Proof.
-  intros g sty c m F. unfold step_first.
-  rewrite <- (hs_result_accept g m F).
-  destruct (hs_result g m) as [r acc]. cbn.
-  destruct acc; cbn; auto. rewrite (gated_true g sty F). reflexivity.
-Qed.
-
-Lemma step_first_outs_fail : forall g sty c m, cfg_facts g -> is_accepted_connect g m = false ->
-  snd (step_first g sty c m) = reply_outs c (fst (hs_result g m)) ++ [SockClosed c].
-Proof.
-  intros g sty c m F A. unfold step_first.
-  rewrite <- (hs_result_accept g m F) in A.
-  destruct (hs_result g m) as [r acc]. cbn in *. subst acc.
-  rewrite (gated_true g sty F). reflexivity.
-Qed.
-
-Lemma step_first_outs_acc : forall g sty c m, is_accepted_connect g m = true -> cfg_facts g ->
-  snd (step_first g sty c m) = [Reply c RConnectOk (m_seq m) (m_ser m)].
-Proof.
-  intros g sty c m A F. unfold step_first.
-  rewrite <- (hs_result_accept g m F) in A.
-  pose proof (hs_result_acc_reply g m A) as R.
-  destruct (hs_result g m) as [r acc]. cbn in *. subst acc r. reflexivity.
-Qed.
-
+(* ------------------------------------------------------------------ later events *)
 (* an execution in the request loop is on behalf of the connection itself, and (given the
    accepted types of handleRequest) comes from an INVOKE message *)
-Lemma step_later_exec : forall g c m c' tok,
-  In (Exec c' tok) (snd (step_later g c m)) ->
+Lemma step_later_msg_exec : forall g c m c' t tok,
+  In (Exec c' t tok) (snd (step_later_msg g c m)) ->
   c' = c /\ (cfg_facts g -> m_type m = c_invoke g).
 Proof.
-  intros g c m c' tok. unfold step_later.
-  assert (NR : forall k, ~ In (Exec c' tok) (if m_oneway m then [] else [Reply c k (m_seq m) (m_ser m)])).
+  intros g c m c' t tok. unfold step_later_msg.
+  assert (NR : forall k, ~ In (Exec c' t tok) (if m_oneway m then [] else [Reply c k (m_seq m) (m_ser m)])).
   { intros k. destruct (m_oneway m); cbn; intros H; auto. destruct H as [H|H]; auto; discriminate. }
-  assert (NC : ~ In (Exec c' tok) [SockClosed c]).
+  assert (NC : ~ In (Exec c' t tok) [SockClosed c]).
   { cbn. intros [H|H]; auto; discriminate. }
   assert (TY : cfg_facts g -> negb (memN (m_type m) (c_later_types g)) = false ->
                (m_type m =? c_ping g)%N = false -> m_type m = c_invoke g).
@@ -143,7 +94,7 @@ Proof.
     try (intros [H|H]; [discriminate|contradiction]);
     destruct (m_ser_known m); cbn;
     try (destruct (m_oneway m); cbn; intros H; exfalso; [exact H | apply NC; exact H]);
-    destruct (m_call m) as [d|known me tk]; cbn.
+    destruct (m_call m) as [d|known tg me tk]; cbn.
   - destruct d; cbn; intros H.
     + exfalso. eapply NR; exact H.
     + exfalso. apply in_app_or in H. destruct H as [H|H]; [eapply NR; exact H | apply NC; exact H].
@@ -156,55 +107,150 @@ Proof.
     + intros H. exfalso. eapply NR; exact H.
 Qed.
 
-Lemma step_fst_same : forall g sty st e,
-  fst (step g sty st e) (e_conn e) =
-  match st (e_conn e) with
-  | Closed => Closed
-  | NotHandshaken => fst (step_first g sty (e_conn e) (e_msg e))
-  | Accepted => fst (step_later g (e_conn e) (e_msg e))
-  end.
+Lemma step_later_exec : forall g sty c i c' t tok,
+  In (Exec c' t tok) (snd (step_later g sty c i)) ->
+  c' = c /\ exists m, i = InMsg m /\ (cfg_facts g -> m_type m = c_invoke g).
 Proof.
-  intros. unfold step. destruct (st (e_conn e)) eqn:E.
-  - destruct (step_first g sty (e_conn e) (e_msg e)). cbn. unfold upd. rewrite Nat.eqb_refl. reflexivity.
-  - destruct (step_later g (e_conn e) (e_msg e)). cbn. unfold upd. rewrite Nat.eqb_refl. reflexivity.
-  - cbn. assumption.
+  intros g sty c i c' t tok H. destruct i as [m| |]; cbn in H.
+  - apply step_later_msg_exec in H. destruct H as [H1 H2]. split; [auto|]. exists m. auto.
+  - destruct H as [H|[]]. discriminate.
+  - destruct sty; cbn in H; [destruct H as [H|[]]; discriminate | contradiction].
 Qed.
 
-Lemma step_fst_other : forall g sty st e c, c <> e_conn e -> fst (step g sty st e) c = st c.
+Lemma step_later_no_connectok : forall g sty c i c' s j,
+  ~ In (Reply c' RConnectOk s j) (snd (step_later g sty c i)).
 Proof.
-  intros g sty st e c N. unfold step.
-  assert (U : forall s, upd st (e_conn e) s c = st c).
-  { intros s. unfold upd. destruct (Nat.eqb_spec c (e_conn e)); [contradiction|reflexivity]. }
-  destruct (st (e_conn e)).
-  - destruct (step_first g sty (e_conn e) (e_msg e)). cbn. apply U.
-  - destruct (step_later g (e_conn e) (e_msg e)). cbn. apply U.
-  - reflexivity.
+  intros g sty c i c' s j H. destruct i as [m| |]; cbn in H.
+  - unfold step_later_msg in H.
+    repeat (match type of H with context [match ?X with _ => _ end] => destruct X end; cbn in H;
+            try contradiction);
+      repeat (match type of H with
+              | _ \/ _ => destruct H as [H|H]
+              | In _ (_ ++ _) => apply in_app_or in H
+              | In _ (_ :: _) => cbn in H
+              | In _ [] => contradiction
+              | False => contradiction
+              | _ = _ => discriminate
+              end).
+  - destruct H as [H|[]]. discriminate.
+  - destruct sty; cbn in H; [destruct H as [H|[]]; discriminate | contradiction].
 Qed.
 
-Lemma step_snd : forall g sty st e,
-  snd (step g sty st e) =
-  match st (e_conn e) with
-  | Closed => []
-  | NotHandshaken => snd (step_first g sty (e_conn e) (e_msg e))
-  | Accepted => snd (step_later g (e_conn e) (e_msg e))
-  end.
+Lemma step_later_state : forall g sty c i, fst (step_later g sty c i) = Accepted \/ fst (step_later g sty c i) = Closed.
 Proof.
-  intros. unfold step. destruct (st (e_conn e)).
-  - destruct (step_first g sty (e_conn e) (e_msg e)); reflexivity.
-  - destruct (step_later g (e_conn e) (e_msg e)); reflexivity.
-  - reflexivity.
+  intros g sty c i. destruct i as [m| |]; cbn; auto.
+  - unfold step_later_msg.
+    repeat (match goal with |- context [match ?X with _ => _ end] => destruct X end; cbn; auto).
+  - destruct sty; cbn; auto.
 Qed.
+
+(* ------------------------------------------------------------------ one step *)
+Lemma step_dead : forall g sty st e, dead (st (e_conn e)) = true -> step g sty st e = (st, []).
+Proof. intros g sty st e H. unfold step. destruct (st (e_conn e)); try discriminate; reflexivity. Qed.
+
+Lemma step_fresh : forall g sty st e, st (e_conn e) = NotHandshaken ->
+  step g sty st e =
+  (upd (if snd (step_first g sty e) then all_abandoned else st) (e_conn e) (fst (fst (step_first g sty e))),
+   snd (fst (step_first g sty e))).
+Proof.
+  intros g sty st e H. unfold step. rewrite H. destruct (step_first g sty e) as [[s o] k]. reflexivity.
+Qed.
+
+Lemma step_accepted : forall g sty st e, st (e_conn e) = Accepted ->
+  step g sty st e =
+  (upd st (e_conn e) (fst (step_later g sty (e_conn e) (e_in e))), snd (step_later g sty (e_conn e) (e_in e))).
+Proof.
+  intros g sty st e H. unfold step. rewrite H. destruct (step_later g sty (e_conn e) (e_in e)). reflexivity.
+Qed.
+
+Lemma upd_same : forall st c s, upd st c s c = s.
+Proof. intros. unfold upd. rewrite Nat.eqb_refl. reflexivity. Qed.
+Lemma upd_other : forall st c s c', c' <> c -> upd st c s c' = st c'.
+Proof. intros. unfold upd. destruct (Nat.eqb_spec c' c); [contradiction|reflexivity]. Qed.
 
 (* an Exec can only come out of a step taken in state Accepted, for that very connection *)
-Lemma step_exec_accepted : forall g sty st e c tok,
-  In (Exec c tok) (snd (step g sty st e)) ->
-  c = e_conn e /\ st c = Accepted /\ (cfg_facts g -> m_type (e_msg e) = c_invoke g).
+Lemma step_exec_accepted : forall g sty st e c t tok, cfg_facts g ->
+  In (Exec c t tok) (snd (step g sty st e)) ->
+  c = e_conn e /\ st c = Accepted /\ exists m, e_in e = InMsg m /\ m_type m = c_invoke g.
 Proof.
-  intros g sty st e c tok H. rewrite step_snd in H.
+  intros g sty st e c t tok F H.
   destruct (st (e_conn e)) eqn:E.
-  - exfalso. eapply step_first_no_exec; exact H.
-  - apply step_later_exec in H. destruct H as [H1 H2]. subst c. auto.
-  - contradiction.
+  - rewrite step_fresh in H by assumption. cbn in H. exfalso. eapply step_first_no_exec; eassumption.
+  - rewrite step_accepted in H by assumption. cbn in H.
+    apply step_later_exec in H. destruct H as (H1 & m & H2 & H3). subst c.
+    split; [reflexivity|]. split; [assumption|]. exists m. auto.
+  - rewrite step_dead in H by (rewrite E; reflexivity). contradiction.
+  - rewrite step_dead in H by (rewrite E; reflexivity). contradiction.
+Qed.
+
+(* how a connection can come to be in state Accepted after a step *)
+Lemma step_accepted_inv : forall g sty st e c, cfg_facts g ->
+  fst (step g sty st e) c = Accepted ->
+  st c = Accepted \/
+  (c = e_conn e /\ st c = NotHandshaken /\ is_accepted_connect g sty e = true /\
+   exists m, e_in e = InMsg m /\ snd (step g sty st e) = [Reply c RConnectOk (m_seq m) (m_ser m)]).
+Proof.
+  intros g sty st e c F H.
+  destruct (st (e_conn e)) eqn:E.
+  - rewrite step_fresh in H |- * by assumption. cbn in H |- *.
+    destruct (step_first_cases g sty e F) as [(A & _ & m & I & S)|[(_ & _ & s0 & o & S & D & _ & _)|(_ & _ & rs & S & _)]];
+      rewrite S in H |- *; cbn in H |- *.
+    + destruct (Nat.eq_dec c (e_conn e)) as [->|N].
+      * right. split; [reflexivity|]. split; [assumption|]. split; [assumption|]. exists m. auto.
+      * rewrite upd_other in H by assumption. auto.
+    + destruct (Nat.eq_dec c (e_conn e)) as [->|N].
+      * rewrite upd_same in H. rewrite H in D. discriminate.
+      * rewrite upd_other in H by assumption. destruct sty; cbn in H; [auto|discriminate].
+    + destruct (Nat.eq_dec c (e_conn e)) as [->|N]; [rewrite upd_same in H; discriminate|].
+      rewrite upd_other in H by assumption. auto.
+  - rewrite step_accepted in H by assumption. cbn in H.
+    destruct (Nat.eq_dec c (e_conn e)) as [->|N]; [auto|].
+    rewrite upd_other in H by assumption. auto.
+  - rewrite step_dead in H by (rewrite E; reflexivity). auto.
+  - rewrite step_dead in H by (rewrite E; reflexivity). auto.
+Qed.
+
+(* a step never makes a connection NotHandshaken; a connection that is still NotHandshaken was not the one stepped *)
+Lemma step_fresh_inv : forall g sty st e c, cfg_facts g ->
+  fst (step g sty st e) c = NotHandshaken -> st c = NotHandshaken /\ c <> e_conn e.
+Proof.
+  intros g sty st e c F H.
+  destruct (st (e_conn e)) eqn:E.
+  - rewrite step_fresh in H by assumption. cbn in H.
+    destruct (step_first_cases g sty e F) as [(_ & _ & m & _ & S)|[(_ & _ & s0 & o & S & D & _ & _)|(_ & _ & rs & S & _)]];
+      rewrite S in H; cbn in H;
+      (destruct (Nat.eq_dec c (e_conn e)) as [->|N];
+       [rewrite upd_same in H; try discriminate; rewrite H in D; discriminate|];
+       rewrite upd_other in H by assumption; try (destruct sty; cbn in H; try discriminate); auto).
+  - rewrite step_accepted in H by assumption. cbn in H.
+    destruct (Nat.eq_dec c (e_conn e)) as [->|N].
+    + rewrite upd_same in H. destruct (step_later_state g sty (e_conn e) (e_in e)) as [X|X]; rewrite X in H; discriminate.
+    + rewrite upd_other in H by assumption. auto.
+  - rewrite step_dead in H by (rewrite E; reflexivity). cbn in H. split; [assumption|].
+    intros ->. rewrite E in H. discriminate.
+  - rewrite step_dead in H by (rewrite E; reflexivity). cbn in H. split; [assumption|].
+    intros ->. rewrite E in H. discriminate.
+Qed.
+
+(* a step on another connection leaves c alone, unless it ends the daemon's request loop *)
+Lemma step_other : forall g sty st e c, cfg_facts g -> c <> e_conn e ->
+  fst (step g sty st e) c = st c \/
+  (fst (step g sty st e) c = Abandoned /\ sty = Multiplex /\ st (e_conn e) = NotHandshaken /\
+   validator_aborts g sty e = true).
+Proof.
+  intros g sty st e c F N.
+  destruct (st (e_conn e)) eqn:E.
+  - rewrite step_fresh by assumption. cbn.
+    destruct (step_first_cases g sty e F) as [(_ & _ & m & _ & S)|[(_ & V & s0 & o & S & _)|(_ & _ & rs & S & _)]];
+      rewrite S; cbn; rewrite upd_other by assumption.
+    + left. reflexivity.
+    + destruct sty; cbn.
+      * left. reflexivity.
+      * right. auto.
+    + left. reflexivity.
+  - rewrite step_accepted by assumption. cbn. left. apply upd_other; assumption.
+  - rewrite step_dead by (rewrite E; reflexivity). auto.
+  - rewrite step_dead by (rewrite E; reflexivity). auto.
 Qed.
 
 (* ------------------------------------------------------------------ histories *)
@@ -216,250 +262,312 @@ Lemma final_snoc : forall g sty pre e st,
   final g sty st (pre ++ [e]) = fst (step g sty (final g sty st pre) e).
 Proof. intros. rewrite final_app. reflexivity. Qed.
 
-(* a connection nobody has written to is still NotHandshaken *)
-Lemma untouched_not_handshaken : forall g sty pre c,
-  (forall x, In x pre -> e_conn x <> c) -> final g sty init pre c = NotHandshaken.
+(* a fresh connection has not been written to *)
+Lemma fresh_untouched : forall g sty, cfg_facts g -> forall pre c,
+  fresh g sty pre c -> forall x, In x pre -> e_conn x <> c.
 Proof.
-  intros g sty pre. induction pre as [|e pre IH] using rev_ind; intros c H.
-  - reflexivity.
-  - rewrite final_snoc, step_fst_other.
-    + apply IH. intros x Hx. apply H. apply in_or_app. auto.
-    + intros E. apply (H e); [apply in_or_app; right; left; reflexivity | auto].
+  intros g sty F pre. unfold fresh. induction pre as [|e pre IH] using rev_ind; intros c H x Hx.
+  - contradiction.
+  - rewrite final_snoc in H. apply step_fresh_inv in H; [|assumption]. destruct H as [H N].
+    apply in_app_or in Hx. destruct Hx as [Hx|[Hx|[]]].
+    + eapply IH; eassumption.
+    + subst x. auto.
 Qed.
 
-(* and conversely: once written to, a connection is never NotHandshaken again *)
-Lemma touched_not_fresh : forall g sty pre c,
-  final g sty init pre c = NotHandshaken -> forall x, In x pre -> e_conn x <> c.
+(* a connection nobody has written to is fresh, unless the daemon's request loop was ended
+   (multiplex server, a validator raising a BaseException-only class) *)
+Lemma untouched_cases : forall g sty, cfg_facts g -> forall pre c,
+  (forall x, In x pre -> e_conn x <> c) ->
+  fresh g sty pre c \/
+  (final g sty init pre c = Abandoned /\ sty = Multiplex /\
+   exists x, In x pre /\ validator_aborts g sty x = true).
 Proof.
-  intros g sty pre. induction pre as [|e pre IH] using rev_ind; intros c H x Hx.
-  - contradiction.
-  - rewrite final_snoc in H.
-    destruct (Nat.eq_dec c (e_conn e)) as [E|N].
-    + exfalso. subst c. rewrite step_fst_same in H.
-      destruct (final g sty init pre (e_conn e)); try discriminate.
-      * unfold step_first in H. destruct (hs_result g (e_msg e)) as [r acc].
-        destruct acc; cbn in H; try discriminate. destruct (gated g sty); discriminate.
-      * unfold step_later in H.
-        repeat (match type of H with context [match ?X with _ => _ end] => destruct X end; cbn in H; try discriminate).
-    + rewrite step_fst_other in H by assumption.
-      apply in_app_or in Hx. destruct Hx as [Hx|[Hx|[]]].
-      * eapply IH; eassumption.
-      * subst x. auto.
+  intros g sty F pre. unfold fresh. induction pre as [|e pre IH] using rev_ind; intros c H.
+  - left. reflexivity.
+  - rewrite final_snoc.
+    assert (N : c <> e_conn e). { intros E. apply (H e); [apply in_or_app; right; left; reflexivity | auto]. }
+    assert (H' : forall x, In x pre -> e_conn x <> c). { intros x Hx. apply H. apply in_or_app. auto. }
+    destruct (step_other g sty (final g sty init pre) e c F N) as [S|(S & M & _ & V)].
+    + rewrite S. destruct (IH c H') as [I|(I & M & x & Hx & V)]; [left; assumption|].
+      right. split; [assumption|]. split; [assumption|]. exists x. split; [apply in_or_app; auto|assumption].
+    + right. split; [assumption|]. split; [assumption|]. exists e. split; [apply in_or_app; right; left; reflexivity|assumption].
+Qed.
+
+Lemma fresh_if_untouched : forall g sty, cfg_facts g -> forall pre c,
+  (forall x, In x pre -> e_conn x <> c) ->
+  (forall x, In x pre -> sty = Multiplex -> validator_aborts g sty x = false) ->
+  fresh g sty pre c.
+Proof.
+  intros g sty F pre c H K. destruct (untouched_cases g sty F pre c H) as [I|(_ & M & x & Hx & V)]; [assumption|].
+  rewrite (K x Hx M) in V. discriminate.
 Qed.
 
 (* THE INVARIANT: a connection is in state Accepted only if its first event was an accepted CONNECT *)
 Lemma accepted_has_connect : forall g sty, cfg_facts g -> forall pre c,
   final g sty init pre c = Accepted ->
-  exists p1 e0 p2, pre = p1 ++ e0 :: p2 /\ e_conn e0 = c /\
-    (forall x, In x p1 -> e_conn x <> c) /\ is_accepted_connect g (e_msg e0) = true.
+  exists p1 e0 p2, pre = p1 ++ e0 :: p2 /\ e_conn e0 = c /\ fresh g sty p1 c /\
+    is_accepted_connect g sty e0 = true /\
+    exists m0, e_in e0 = InMsg m0 /\ outs_of g sty p1 e0 = [Reply c RConnectOk (m_seq m0) (m_ser m0)].
 Proof.
   intros g sty F pre. induction pre as [|e pre IH] using rev_ind; intros c H.
   - discriminate.
-  - rewrite final_snoc in H.
-    destruct (Nat.eq_dec c (e_conn e)) as [E|N].
-    + subst c. rewrite step_fst_same in H.
-      destruct (final g sty init pre (e_conn e)) eqn:S.
-      * (* first event of this connection *)
-        rewrite (step_first_state g sty _ _ F) in H.
-        destruct (is_accepted_connect g (e_msg e)) eqn:A; try discriminate.
-        exists pre, e, []. repeat split; auto.
-        eapply touched_not_fresh; eassumption.
-      * destruct (IH _ S) as (p1 & e0 & p2 & -> & C & Fr & A).
-        exists p1, e0, (p2 ++ [e]). repeat split; auto.
-        rewrite <- app_assoc. reflexivity.
-      * discriminate.
-    + rewrite step_fst_other in H by assumption.
-      destruct (IH _ H) as (p1 & e0 & p2 & -> & C & Fr & A).
-      exists p1, e0, (p2 ++ [e]). repeat split; auto.
-      rewrite <- app_assoc. reflexivity.
+  - rewrite final_snoc in H. apply step_accepted_inv in H; [|assumption].
+    destruct H as [H|(E & S & A & m & I & O)].
+    + destruct (IH _ H) as (p1 & e0 & p2 & -> & C & Fr & A & M).
+      exists p1, e0, (p2 ++ [e]). split; [rewrite <- app_assoc; reflexivity|]. auto.
+    + exists pre, e, []. split; [reflexivity|]. split; [auto|]. split; [exact S|]. split; [assumption|].
+      exists m. split; [assumption|]. exact O.
 Qed.
 
-(* Closed is absorbing, and a closed connection produces nothing *)
-Lemma closed_stays : forall g sty mid st c, st c = Closed -> final g sty st mid c = Closed.
+(* Closed and Abandoned are absorbing, and such a connection produces nothing *)
+Lemma dead_stays : forall g sty, cfg_facts g -> forall mid st c,
+  dead (st c) = true -> dead (final g sty st mid c) = true.
 Proof.
-  intros g sty mid. induction mid as [|e mid IH]; cbn; intros st c H; auto.
+  intros g sty F mid. induction mid as [|e mid IH]; cbn; intros st c H; auto.
   apply IH. destruct (Nat.eq_dec c (e_conn e)) as [E|N].
-  - subst c. rewrite step_fst_same, H. reflexivity.
-  - rewrite step_fst_other; assumption.
+  - subst c. rewrite step_dead by assumption. assumption.
+  - destruct (step_other g sty st e c F N) as [S|(S & _)]; rewrite S; [assumption|reflexivity].
 Qed.
 
-Lemma closed_silent : forall g sty st e, st (e_conn e) = Closed -> snd (step g sty st e) = [].
-Proof. intros. rewrite step_snd, H. reflexivity. Qed.
+Lemma dead_silent : forall g sty st e, dead (st (e_conn e)) = true -> snd (step g sty st e) = [].
+Proof. intros. rewrite step_dead by assumption. reflexivity. Qed.
+
+Lemma dead_later_silent : forall g sty, cfg_facts g -> forall pre c,
+  dead (final g sty init pre c) = true ->
+  forall mid e', e_conn e' = c -> outs_of g sty (pre ++ mid) e' = [].
+Proof.
+  intros g sty F pre c D mid e' C. unfold outs_of. apply dead_silent. rewrite C, final_app.
+  apply dead_stays; assumption.
+Qed.
 
 (* ------------------------------------------------------------------ main theorems *)
 
-(* event form: whatever is executed is executed for an INVOKE of a connection whose first
-   event was an accepted CONNECT *)
+(* event form: whatever is executed (on an application object or on the daemon's own object) is
+   executed for an INVOKE of a connection whose first event was an accepted CONNECT *)
 Theorem exec_needs_accepted_connect : forall g sty, cfg_ok g = true ->
-  forall pre e c tok, In (Exec c tok) (outs_of g sty pre e) ->
-  e_conn e = c /\ m_type (e_msg e) = c_invoke g /\
-  exists p1 e0 p2, pre = p1 ++ e0 :: p2 /\ e_conn e0 = c /\
-    (forall x, In x p1 -> e_conn x <> c) /\
-    is_accepted_connect g (e_msg e0) = true /\
-    outs_of g sty p1 e0 = [Reply c RConnectOk (m_seq (e_msg e0)) (m_ser (e_msg e0))].
+  forall pre e c t tok, In (Exec c t tok) (outs_of g sty pre e) ->
+  e_conn e = c /\ (exists m, e_in e = InMsg m /\ m_type m = c_invoke g) /\
+  exists p1 e0 p2, pre = p1 ++ e0 :: p2 /\ e_conn e0 = c /\ fresh g sty p1 c /\
+    is_accepted_connect g sty e0 = true /\
+    exists m0, e_in e0 = InMsg m0 /\ outs_of g sty p1 e0 = [Reply c RConnectOk (m_seq m0) (m_ser m0)].
 Proof.
-  intros g sty OK pre e c tok H. apply cfg_ok_facts in OK.
-  unfold outs_of in H. apply step_exec_accepted in H. destruct H as (E & S & T).
-  split; [auto|]. split; [auto|].
-  destruct (accepted_has_connect g sty OK pre c S) as (p1 & e0 & p2 & P & C & Fr & A).
-  exists p1, e0, p2. repeat split; auto.
-  unfold outs_of. rewrite step_snd.
-  rewrite (untouched_not_handshaken g sty p1 (e_conn e0)) by (rewrite C; assumption).
-  rewrite step_first_outs_acc by assumption. rewrite C. reflexivity.
+  intros g sty OK pre e c t tok H. apply cfg_ok_facts in OK.
+  unfold outs_of in H. apply step_exec_accepted in H; [|assumption]. destruct H as (E & S & T).
+  split; [auto|]. split; [assumption|].
+  exact (accepted_has_connect g sty OK pre c S).
 Qed.
 
 (* trace form, by an invariant relating the state to the trace emitted so far *)
-Lemma exec_after_connectok_gen : forall g sty, cfg_facts g -> forall evs st acc c tok t1 t2,
+Lemma exec_after_connectok_gen : forall g sty, cfg_facts g -> forall evs st acc c t tok t1 t2,
   (forall c', st c' = Accepted -> exists s i, In (Reply c' RConnectOk s i) acc) ->
-  concat (run g sty st evs) = t1 ++ Exec c tok :: t2 ->
+  concat (run g sty st evs) = t1 ++ Exec c t tok :: t2 ->
   exists s i, In (Reply c RConnectOk s i) (acc ++ t1).
 Proof.
-  intros g sty F evs. induction evs as [|e evs IH]; intros st acc c tok t1 t2 I H.
+  intros g sty F evs. induction evs as [|e evs IH]; intros st acc c t tok t1 t2 I H.
   - cbn in H. destruct t1; discriminate.
-  - cbn in H. apply app_eq_app in H. destruct H as [l [[H1 H2]|[H1 H2]]].
-    + (* the Exec is in (or starts the rest after) this step's output *)
-      destruct l as [|x l].
-      * (* boundary: Exec is the head of the rest *)
-        rewrite app_nil_r in H1. cbn in H2.
-        destruct (IH (fst (step g sty st e)) (acc ++ snd (step g sty st e)) c tok [] t2) as (s & i & R).
-        -- intros c' A. destruct (Nat.eq_dec c' (e_conn e)) as [E|N].
-           ++ subst c'. rewrite step_fst_same in A. rewrite step_snd.
-              destruct (st (e_conn e)) eqn:S.
-              ** rewrite (step_first_state g sty _ _ F) in A.
-                 destruct (is_accepted_connect g (e_msg e)) eqn:AC; try discriminate.
-                 rewrite step_first_outs_acc by assumption.
-                 eexists; eexists. apply in_or_app. right. left. reflexivity.
-              ** destruct (I _ S) as (s & i & R). exists s, i. apply in_or_app. auto.
-              ** discriminate.
-           ++ rewrite step_fst_other in A by assumption.
-              destruct (I _ A) as (s & i & R). exists s, i. apply in_or_app. auto.
+  - cbn in H.
+    assert (I' : forall c', fst (step g sty st e) c' = Accepted ->
+                 exists s i, In (Reply c' RConnectOk s i) (acc ++ snd (step g sty st e))).
+    { intros c' A. apply step_accepted_inv in A; [|assumption].
+      destruct A as [A|(_ & _ & _ & m & _ & O)].
+      - destruct (I _ A) as (s & i & R). exists s, i. apply in_or_app. auto.
+      - rewrite O. eexists; eexists. apply in_or_app. right. left. reflexivity. }
+    apply app_eq_app in H. destruct H as [l [[H1 H2]|[H1 H2]]].
+    + destruct l as [|x l].
+      * rewrite app_nil_r in H1. cbn in H2.
+        destruct (IH (fst (step g sty st e)) (acc ++ snd (step g sty st e)) c t tok [] t2 I') as (s & i & R).
         -- symmetry. exact H2.
         -- exists s, i. rewrite app_nil_r in R. rewrite <- H1. exact R.
       * cbn in H2. inversion H2; subst x. clear H2.
-        assert (In (Exec c tok) (snd (step g sty st e))).
+        assert (X : In (Exec c t tok) (snd (step g sty st e))).
         { rewrite H1. apply in_or_app. right. left. reflexivity. }
-        apply step_exec_accepted in H. destruct H as (E & S & _).
+        apply step_exec_accepted in X; [|assumption]. destruct X as (E & S & _).
         destruct (I _ S) as (s & i & R). exists s, i. apply in_or_app. auto.
-    + (* the Exec is in the rest *)
-      destruct (IH (fst (step g sty st e)) (acc ++ snd (step g sty st e)) c tok l t2) as (s & i & R).
-      * intros c' A. destruct (Nat.eq_dec c' (e_conn e)) as [E|N].
-        -- subst c'. rewrite step_fst_same in A. rewrite step_snd.
-           destruct (st (e_conn e)) eqn:S.
-           ++ rewrite (step_first_state g sty _ _ F) in A.
-              destruct (is_accepted_connect g (e_msg e)) eqn:AC; try discriminate.
-              rewrite step_first_outs_acc by assumption.
-              eexists; eexists. apply in_or_app. right. left. reflexivity.
-           ++ destruct (I _ S) as (s & i & R). exists s, i. apply in_or_app. auto.
-           ++ discriminate.
-        -- rewrite step_fst_other in A by assumption.
-           destruct (I _ A) as (s & i & R). exists s, i. apply in_or_app. auto.
-      * exact H2.
-      * exists s, i. rewrite H1. rewrite app_assoc. exact R.
+    + destruct (IH (fst (step g sty st e)) (acc ++ snd (step g sty st e)) c t tok l t2 I' H2) as (s & i & R).
+      exists s, i. rewrite H1. rewrite app_assoc. exact R.
 Qed.
 
 Theorem no_exec_before_handshake : forall g sty, cfg_ok g = true ->
-  forall evs t1 c tok t2, trace g sty evs = t1 ++ Exec c tok :: t2 ->
+  forall evs t1 c t tok t2, trace g sty evs = t1 ++ Exec c t tok :: t2 ->
   exists s i, In (Reply c RConnectOk s i) t1.
 Proof.
-  intros g sty OK evs t1 c tok t2 H. apply cfg_ok_facts in OK.
-  apply (exec_after_connectok_gen g sty OK evs init [] c tok t1 t2); auto.
+  intros g sty OK evs t1 c t tok t2 H. apply cfg_ok_facts in OK.
+  apply (exec_after_connectok_gen g sty OK evs init [] c t tok t1 t2); auto.
   intros c' A. discriminate.
 Qed.
 
 (* CONNECTOK is only ever sent in answer to an accepted CONNECT that is the connection's first event *)
 Theorem connectok_only_for_accepted_connect : forall g sty, cfg_ok g = true ->
   forall pre e c s i, In (Reply c RConnectOk s i) (outs_of g sty pre e) ->
-  e_conn e = c /\ (forall x, In x pre -> e_conn x <> c) /\ is_accepted_connect g (e_msg e) = true.
+  e_conn e = c /\ fresh g sty pre c /\ is_accepted_connect g sty e = true.
 Proof.
   intros g sty OK pre e c s i H. apply cfg_ok_facts in OK.
-  unfold outs_of in H. rewrite step_snd in H.
+  unfold outs_of in H. unfold fresh.
   destruct (final g sty init pre (e_conn e)) eqn:S.
-  - destruct (is_accepted_connect g (e_msg e)) eqn:A.
-    + rewrite step_first_outs_acc in H by assumption.
-      destruct H as [H|[]]. inversion H; subst. repeat split; auto.
-      eapply touched_not_fresh; eassumption.
-    + exfalso. rewrite step_first_outs_fail in H by assumption.
-      pose proof (hs_result_accept g (e_msg e) OK) as AR. rewrite A in AR.
-      apply in_app_or in H. destruct H as [H|[H|[]]]; try discriminate.
-      destruct (hs_result_fail_shape g (e_msg e) AR) as [N|(r & s' & i' & N)]; rewrite N in H; cbn in H.
-      * contradiction.
-      * destruct H as [H|[]]. discriminate.
-  - exfalso. unfold step_later in H.
-    repeat (match type of H with context [match ?X with _ => _ end] => destruct X end; cbn in H;
-            try contradiction);
-      repeat (match type of H with
-              | _ \/ _ => destruct H as [H|H]
-              | In _ (_ ++ _) => apply in_app_or in H
-              | In _ (_ :: _) => cbn in H
-              | In _ [] => contradiction
-              | False => contradiction
-              | _ = _ => discriminate
-              end).
-  - contradiction.
+  - rewrite step_fresh in H by assumption. cbn in H.
+    destruct (step_first_cases g sty e OK) as [(A & _ & m & I & X)|[(_ & _ & s0 & o & X & _ & Ro & _)|(_ & _ & rs & X & R)]];
+      rewrite X in H; cbn in H.
+    + destruct H as [H|[]]. inversion H; subst. auto.
+    + exfalso. destruct Ro as [->| ->]; cbn in H; [contradiction|]. destruct H as [H|[]]. discriminate.
+    + exfalso. apply in_app_or in H. destruct H as [H|[H|[]]]; try discriminate.
+      destruct R as [->|(k & s' & i' & ->)]; cbn in H; [contradiction|].
+      destruct H as [H|[]]. discriminate.
+  - exfalso. rewrite step_accepted in H by assumption. cbn in H.
+    eapply step_later_no_connectok; exact H.
+  - rewrite step_dead in H by (rewrite S; reflexivity). contradiction.
+  - rewrite step_dead in H by (rewrite S; reflexivity). contradiction.
 Qed.
 
-(* a failing first event: at most one reply, a CONNECTFAIL, then the socket is closed;
-   and nothing the connection sends afterwards produces anything *)
+(* what the first event of a fresh connection produces *)
+Lemma first_outs : forall g sty pre e, fresh g sty pre (e_conn e) ->
+  outs_of g sty pre e = snd (fst (step_first g sty e)) /\
+  final g sty init (pre ++ [e]) (e_conn e) = fst (fst (step_first g sty e)).
+Proof.
+  intros g sty pre e Fr. unfold outs_of. rewrite final_snoc. rewrite step_fresh by exact Fr. cbn.
+  split; [reflexivity|]. apply upd_same.
+Qed.
+
+(* A failing first event of a fresh connection.  Either the validator raised a BaseException-only class
+   (open finding): nothing at all comes out — no execution, but also no answer and no close.  Or: at most
+   one reply, a CONNECTFAIL, then the socket is closed.  In both cases nothing the connection sends
+   afterwards produces anything. *)
 Theorem failed_handshake_closes : forall g sty, cfg_ok g = true ->
-  forall pre e c, e_conn e = c -> (forall x, In x pre -> e_conn x <> c) ->
-  is_accepted_connect g (e_msg e) = false ->
-  (exists rs, outs_of g sty pre e = rs ++ [SockClosed c] /\
-              (rs = [] \/ exists r s i, rs = [Reply c (RConnectFail r) s i])) /\
+  forall pre e c, e_conn e = c -> fresh g sty pre c ->
+  is_accepted_connect g sty e = false ->
+  ((validator_aborts g sty e = true /\ (outs_of g sty pre e = [] \/ outs_of g sty pre e = [SockClosed c])) \/
+   (validator_aborts g sty e = false /\
+    exists rs, outs_of g sty pre e = rs ++ [SockClosed c] /\
+               (rs = [] \/ exists r s i, rs = [Reply c (RConnectFail r) s i]))) /\
   (forall mid e', e_conn e' = c -> outs_of g sty (pre ++ e :: mid) e' = []).
 Proof.
-  intros g sty OK pre e c C Fr A. apply cfg_ok_facts in OK. subst c. split.
-  - unfold outs_of. rewrite step_snd, (untouched_not_handshaken g sty pre _ Fr).
-    rewrite step_first_outs_fail by assumption.
-    eexists. split; [reflexivity|].
-    pose proof (hs_result_accept g (e_msg e) OK) as AR. rewrite A in AR.
-    destruct (hs_result_fail_shape g (e_msg e) AR) as [N|(r & s & i & N)]; rewrite N; cbn; eauto.
-  - intros mid e' C'. unfold outs_of.
-    apply closed_silent. rewrite C'.
-    replace (pre ++ e :: mid) with ((pre ++ [e]) ++ mid) by (rewrite <- app_assoc; reflexivity).
-    rewrite final_app. apply closed_stays.
-    rewrite final_snoc, step_fst_same, (untouched_not_handshaken g sty pre _ Fr).
-    rewrite (step_first_state g sty _ _ OK), A. reflexivity.
+  intros g sty OK pre e c C Fr A. apply cfg_ok_facts in OK. subst c.
+  destruct (first_outs g sty pre e Fr) as [O S].
+  destruct (step_first_cases g sty e OK) as [(A' & _)|[(_ & V & s0 & o & X & D & Ro & _)|(_ & V & rs & X & R)]].
+  - rewrite A in A'. discriminate.
+  - split.
+    + left. split; [assumption|]. rewrite O, X. cbn. exact Ro.
+    + intros mid e' C'.
+      replace (pre ++ e :: mid) with ((pre ++ [e]) ++ mid) by (rewrite <- app_assoc; reflexivity).
+      apply (dead_later_silent g sty OK (pre ++ [e]) (e_conn e)); [|assumption].
+      rewrite S, X. cbn. exact D.
+  - split.
+    + right. split; [assumption|]. exists rs. rewrite O, X. cbn. auto.
+    + intros mid e' C'.
+      replace (pre ++ e :: mid) with ((pre ++ [e]) ++ mid) by (rewrite <- app_assoc; reflexivity).
+      apply (dead_later_silent g sty OK (pre ++ [e]) (e_conn e)); [|assumption].
+      rewrite S, X. reflexivity.
 Qed.
 
-(* the reason is carried, for the three causes the property names *)
+(* the outcome of a validator that raises a BaseException-only class, stated on its own *)
+Theorem validator_abort_outcome : forall g sty, cfg_ok g = true ->
+  forall pre e c, e_conn e = c -> fresh g sty pre c -> validator_aborts g sty e = true ->
+  (outs_of g sty pre e = [] \/ outs_of g sty pre e = [SockClosed c]) /\
+  (sty = Thread -> outs_of g sty pre e = []) /\
+  (forall mid e', e_conn e' = c -> outs_of g sty (pre ++ e :: mid) e' = []) /\
+  (sty = Multiplex -> forall mid e', outs_of g sty (pre ++ e :: mid) e' = []).
+Proof.
+  intros g sty OK pre e c C Fr V. pose proof (cfg_ok_facts g OK) as F. subst c.
+  destruct (first_outs g sty pre e Fr) as [O S].
+  destruct (step_first_cases g sty e F) as [(_ & V' & _)|[(A & _ & s0 & o & X & D & Ro & RT)|(_ & V' & _)]];
+    try (rewrite V in V'; discriminate).
+  destruct (failed_handshake_closes g sty OK pre e (e_conn e) eq_refl Fr A) as [_ L].
+  split; [rewrite O, X; exact Ro|]. split; [|split; [exact L|]].
+  - intros T. rewrite O, X. cbn. exact (RT T).
+  - intros M mid e'. subst sty.
+    replace (pre ++ e :: mid) with ((pre ++ [e]) ++ mid) by (rewrite <- app_assoc; reflexivity).
+    apply (dead_later_silent g Multiplex F (pre ++ [e]) (e_conn e')); [|reflexivity].
+    rewrite final_snoc, step_fresh by exact Fr. rewrite X. cbn.
+    destruct (Nat.eq_dec (e_conn e') (e_conn e)) as [E|N].
+    + rewrite E, upd_same. exact D.
+    + rewrite upd_other by assumption. reflexivity.
+Qed.
+
+(* a connection that was never written to but is not fresh: the multiplex daemon's loop was ended by such a
+   validator earlier; nothing is served (hence nothing executed) for it *)
+Theorem loop_killed_nothing_served : forall g sty, cfg_ok g = true ->
+  forall pre c, (forall x, In x pre -> e_conn x <> c) -> ~ fresh g sty pre c ->
+  sty = Multiplex /\ (exists x, In x pre /\ validator_aborts g sty x = true) /\
+  forall mid e', e_conn e' = c -> outs_of g sty (pre ++ mid) e' = [].
+Proof.
+  intros g sty OK pre c U NF. apply cfg_ok_facts in OK.
+  destruct (untouched_cases g sty OK pre c U) as [I|(I & M & X)]; [contradiction|].
+  split; [assumption|]. split; [assumption|].
+  apply dead_later_silent; [assumption|]. rewrite I. reflexivity.
+Qed.
+
+(* the reason is carried, for the causes the property names and for the transport-level refusals *)
 Theorem failure_reason_carried : forall g sty, cfg_ok g = true ->
-  forall pre e c, e_conn e = c -> (forall x, In x pre -> e_conn x <> c) ->
-  let m := e_msg e in
+  forall pre e c, e_conn e = c -> fresh g sty pre c ->
   (* (a) the first message is well-framed but not a CONNECT *)
-  (m_wf m <> WfBadHeader -> m_type m <> c_connect g ->
+  (forall m, e_in e = InMsg m -> m_wf m <> WfBadHeader -> m_type m <> c_connect g ->
      outs_of g sty pre e = [Reply c (RConnectFail RsnOther) 0%N (c_marshal g); SockClosed c]) /\
-  (* (b) the validator is reached and raises (and it is not the silent quirk) *)
-  (forall o cc, m_wf m = WfOk -> m_type m = c_connect g -> m_ser_known m = true ->
+  (* (b) the validator is reached and raises an Exception (and it is not the repaired silent quirk) *)
+  (forall m o cc, e_in e = InMsg m -> denied_applies sty e = false ->
+     m_wf m = WfOk -> m_type m = c_connect g -> m_ser_known m = true ->
      m_hs m = HsFull o -> m_val m = VRaise cc -> cc && q_silent_validator_cce g = false ->
      outs_of g sty pre e = [Reply c (RConnectFail RsnValidator) (m_seq m) (m_ser m); SockClosed c]) /\
   (* (c) the validator accepts but the requested object is not registered *)
-  (forall s, m_wf m = WfOk -> m_type m = c_connect g -> m_ser_known m = true ->
+  (forall m s, e_in e = InMsg m -> denied_applies sty e = false ->
+     m_wf m = WfOk -> m_type m = c_connect g -> m_ser_known m = true ->
      m_hs m = HsFull ObjUnknown -> m_val m = VAccept s ->
-     outs_of g sty pre e = [Reply c (RConnectFail RsnUnknownObject) (m_seq m) (m_ser m); SockClosed c]).
+     outs_of g sty pre e = [Reply c (RConnectFail RsnUnknownObject) (m_seq m) (m_ser m); SockClosed c]) /\
+  (* (d) the thread-pool server had no free worker: any well-formed CONNECT is refused with that reason *)
+  (forall m, e_in e = InMsg m -> denied_applies sty e = true -> m_wf m = WfOk -> m_type m = c_connect g ->
+     outs_of g sty pre e = [Reply c (RConnectFail RsnDenied) (m_seq m) (c_marshal g); SockClosed c]) /\
+  (* (e) the peer says nothing within COMMTIMEOUT *)
+  (e_in e = InSilence ->
+     outs_of g sty pre e = [Reply c (RConnectFail RsnOther) 0%N (c_marshal g); SockClosed c]).
 Proof.
-  intros g sty OK pre e c C Fr m. apply cfg_ok_facts in OK. subst c m.
-  assert (O : outs_of g sty pre e = snd (step_first g sty (e_conn e) (e_msg e))).
-  { unfold outs_of. rewrite step_snd, (untouched_not_handshaken g sty pre _ Fr). reflexivity. }
-  rewrite O. unfold step_first, hs_result.
-  rewrite (gated_true g sty OK), (cf_first g OK), memN_single.
-  split; [|split].
-  - intros W T. apply N.eqb_neq in T. rewrite T.
-    destruct (m_wf (e_msg e)); try contradiction; reflexivity.
-  - intros o cc W T K H V Q. rewrite W, T, N.eqb_refl, K, H, V. cbn. rewrite Q. reflexivity.
-  - intros s W T K H V. rewrite W, T, N.eqb_refl, K, H, V. reflexivity.
+  intros g sty OK pre e c C Fr. apply cfg_ok_facts in OK. subst c.
+  destruct (first_outs g sty pre e Fr) as [O _]. rewrite O.
+  unfold step_first. rewrite (gated_true g sty OK).
+  split; [|split; [|split; [|split]]].
+  - intros m I W T. rewrite I. apply N.eqb_neq in T.
+    destruct (denied_applies sty e); cbn.
+    + unfold hs_denied. rewrite (cf_first g OK), memN_single, T.
+      destruct (m_wf m); try contradiction; reflexivity.
+    + unfold hs_result. rewrite (cf_first g OK), memN_single, T.
+      destruct (m_wf m); try contradiction; reflexivity.
+  - intros m o cc I D W T K H V Q. rewrite I, D. unfold hs_result.
+    rewrite (cf_first g OK), memN_single, W, T, N.eqb_refl, K, H, V. cbn. rewrite Q. reflexivity.
+  - intros m s I D W T K H V. rewrite I, D. unfold hs_result.
+    rewrite (cf_first g OK), memN_single, W, T, N.eqb_refl, K, H, V. reflexivity.
+  - intros m I D W T. rewrite I, D. unfold hs_denied.
+    rewrite (cf_first g OK), memN_single, W, T, N.eqb_refl. reflexivity.
+  - intros I. rewrite I. destruct (denied_applies sty e); reflexivity.
 Qed.
 
-(* with both quirks off (the repaired code) every failing first event is answered *)
+(* with the two repaired quirks off, every failing first event of a fresh connection is answered — with the
+   honest exceptions: a peer that has already gone away cannot be answered, and the BaseException finding *)
 Theorem failed_handshake_always_answered : forall g sty, cfg_ok g = true ->
   q_silent_unknown_ser g = false -> q_silent_validator_cce g = false ->
-  forall pre e c, e_conn e = c -> (forall x, In x pre -> e_conn x <> c) ->
-  is_accepted_connect g (e_msg e) = false ->
+  forall pre e c, e_conn e = c -> fresh g sty pre c ->
+  is_accepted_connect g sty e = false -> peer_gone e = false -> validator_aborts g sty e = false ->
   exists r s i, outs_of g sty pre e = [Reply c (RConnectFail r) s i; SockClosed c].
 Proof.
-  intros g sty OK Q1 Q2 pre e c C Fr A. apply cfg_ok_facts in OK. subst c.
-  unfold outs_of. rewrite step_snd, (untouched_not_handshaken g sty pre _ Fr).
-  rewrite step_first_outs_fail by assumption.
-  pose proof (hs_result_accept g (e_msg e) OK) as AR. rewrite A in AR.
-  destruct (hs_result_fail_answered g (e_msg e) Q1 Q2 AR) as (r & s & i & N).
-  rewrite N. cbn. eauto.
+  intros g sty OK Q1 Q2 pre e c C Fr A PG V. apply cfg_ok_facts in OK. subst c.
+  destruct (first_outs g sty pre e Fr) as [O _]. rewrite O.
+  unfold step_first. rewrite (gated_true g sty OK).
+  unfold is_accepted_connect, validator_aborts, peer_gone in *.
+  destruct (denied_applies sty e); cbn in *.
+  - destruct (e_in e) as [m| |]; try discriminate.
+    + destruct (hs_denied_shape g m) as (k & s & i & H). rewrite H. cbn.
+      eexists; eexists; eexists; reflexivity.
+    + eexists; eexists; eexists; reflexivity.
+  - destruct (e_in e) as [m| |]; try discriminate.
+    + assert (B : abort_msg g m = false).
+      { unfold abort_msg. rewrite <- andb_assoc. exact V. }
+      destruct (hs_result_refuse_answered g m OK Q1 Q2 A B) as (k & s & i & H).
+      rewrite H. cbn. eexists; eexists; eexists; reflexivity.
+    + cbn. eexists; eexists; eexists; reflexivity.
+Qed.
+
+(* a peer that goes away before completing its first message: closed, nothing else *)
+Theorem peer_gone_first : forall g sty, cfg_ok g = true ->
+  forall pre e c, e_conn e = c -> fresh g sty pre c -> e_in e = InPeerGone ->
+  outs_of g sty pre e = [SockClosed c].
+Proof.
+  intros g sty OK pre e c C Fr I. apply cfg_ok_facts in OK. subst c.
+  destruct (first_outs g sty pre e Fr) as [O _]. rewrite O.
+  unfold step_first. rewrite (gated_true g sty OK), I. destruct (denied_applies sty e); reflexivity.
 Qed.
